@@ -123,6 +123,23 @@ add("C16", "Body.tla: TLC enumerates every body up to 4 statements over the stat
     "TLA+ spec (Body.tla token-sequence model) model-checked with TLC; real parse+emit runs validated by TLC (BodyTrace.tla)", "DESIGN.md 5.4, 8 C16")
 
 
+add("C14", "SyncProps.tla: TLC checks OnlyAddressedChanged, AllPairsApplied (last writer wins) and UnresolvedIsError over all input/output property "
+    "maps, 1-2 pairs, wrap on/off, resolvable or not. Real calls: every (input location, output location) pair of two generated modules covering "
+    "module-level (annotated) assignments, class attributes, function / method arguments, positional and keyword-only, same-named parameters in other "
+    "definitions; wrap on/off; eval mode on every output location; random 2-3 pair calls; unresolved addresses. The input file's bytes, the output's "
+    "ast (every node by name / annotation / default) are observed and validated by TLC (SyncPropsTrace.tla).",
+    "Trusted: TLC, the ast observer (vf/syncprops_check.py). Two fixed modules; the addressed node's own default is not judged; wrapping a property "
+    "without annotation slot is declared unsupported by the code (NotImplementedError) and is outside the domain.",
+    "TLA+ spec (SyncProps.tla) model-checked with TLC; real sync_properties calls validated by TLC (SyncPropsTrace.tla)", "DESIGN.md 5.8, 8 C14")
+add("C19", "Gen.tla: TLC enumerates all 2,880 configurations (mapping of 1-3 distinct entries, type, name template, prepend, 0-2 import lines, output "
+    "exists) with the expected item sequence, checks OnePerEntryInOrder / Layout / ExistingKept and the action property RefusesExisting. Each "
+    "configuration (a sample in quick, all in thorough) is run as a real `python -m doctrans gen` subprocess on a generated input module, followed by "
+    "a second invocation; the output module is read with ast (items, names, __all__, parameter names of every definition, node kinds) and validated "
+    "by TLC (GenTrace.tla).",
+    "Trusted: TLC, the ast observer (vf/gen_check.py). Entries are drawn from four fixed definitions (2 classes with __init__, 2 functions).",
+    "TLA+ spec (Gen.tla) model-checked with TLC; real gen runs validated by TLC (GenTrace.tla)", "DESIGN.md 5.8, 8 C19")
+
+
 def main():
     props = [json.loads(l)["id"] for l in open(os.path.join(HERE, "properties.jsonl"))]
     m = {
